@@ -661,3 +661,102 @@ def m_trim_ascii(it, argv, text):
         while j > i and is_ws(bs[j - 1]):
             j -= 1
     return StrV(tuple(bs[i:j]))
+
+
+# ----------------------------------------------------------------------------- std hashers and once-cells (round 6)
+# A digest is modelled as the exact sequence of bytes fed to the hasher (an injective "hash"): two digests are equal iff the inputs
+# are equal.  Real SipHash-1-3 collides with probability 2^-64 per pair; that is outside the claim (assumption A-hash).
+
+def _hash_feed(it, v):
+    v = it.deref_all(v)
+    if isinstance(v, EnumV) and v.ename == 'Cow':
+        v = it.as_str(v)
+    if isinstance(v, StrV):
+        return tuple(v.b) + (255,)
+    if isinstance(v, bool):
+        return (int(v),)
+    if isinstance(v, int) or is_sym(v):
+        return (v,)
+    if isinstance(v, (VecV, SliceV)):
+        out = (len(it.as_seq(v)),)
+        for x in it.as_seq(v):
+            out += _hash_feed(it, x)
+        return out
+    if isinstance(v, (TupleV, StructV)):
+        out = ()
+        for x in v.f:
+            out += _hash_feed(it, x)
+        return out
+    if isinstance(v, EnumV):
+        out = (v.idx,)
+        for x in v.f:
+            out += _hash_feed(it, x)
+        return out
+    raise Unsupported("hashing of %r" % (v,))
+
+
+@model('DefaultHasher::new', 'DefaultHasher::default', 'SipHasher::new', 'SipHasher13::new')
+def m_hasher_new(it, argv, text):
+    return StructV('__Hasher', (StrV(()),))
+
+
+def _hasher_cell(it, r):
+    while isinstance(it.load(r.addr), RefV):
+        r = it.load(r.addr)
+    h = it.load(r.addr)
+    if not (isinstance(h, StructV) and h.name == '__Hasher'):
+        raise Unsupported("hasher state %r" % (h,))
+    return r, h
+
+
+@model('Hash::hash')
+def m_hash_hash(it, argv, text):
+    r, h = _hasher_cell(it, argv[1])
+    it.store(r.addr, StructV('__Hasher', (StrV(tuple(h.f[0].b) + _hash_feed(it, argv[0])),)))
+    return UNIT
+
+
+@model('Hasher::write', 'Hasher::write_u8', 'Hasher::write_u32', 'Hasher::write_u64', 'Hasher::write_usize', 'Hasher::write_str',
+       'DefaultHasher::write', 'DefaultHasher::write_str')
+def m_hasher_write(it, argv, text):
+    r, h = _hasher_cell(it, argv[0])
+    it.store(r.addr, StructV('__Hasher', (StrV(tuple(h.f[0].b) + _hash_feed(it, argv[1])),)))
+    return UNIT
+
+
+@model('Hasher::finish', 'DefaultHasher::finish')
+def m_hasher_finish(it, argv, text):
+    r, h = _hasher_cell(it, argv[0])
+    return StructV('__Digest', (h.f[0],))
+
+
+@model('OnceLock::new', 'OnceCell::new')
+def m_oncelock_new(it, argv, text):
+    return RefV(it.alloc(NONE))
+
+
+def _once_cell(it, r):
+    """&OnceLock -> the reference to its Option cell (the OnceLock value itself is a RefV to that cell)"""
+    v = it.load(r.addr)
+    while isinstance(v, RefV):
+        r = v
+        v = it.load(r.addr)
+    if not (isinstance(v, EnumV) and v.ename == 'Option'):
+        raise Unsupported("once cell state %r" % (v,))
+    return r, v
+
+
+@model('OnceLock::get_or_init', 'OnceCell::get_or_init')
+def m_oncelock_get_or_init(it, argv, text):
+    r, cur = _once_cell(it, argv[0])
+    if cur.idx == 1:
+        return cur.f[0]
+    a = it.alloc(it.call_value(argv[1], []))
+    it.store(r.addr, some(RefV(a)))
+    return RefV(a)
+
+
+@model('OnceLock::get', 'OnceCell::get')
+def m_oncelock_get(it, argv, text):
+    r, cur = _once_cell(it, argv[0])
+    return some(cur.f[0]) if cur.idx == 1 else NONE
